@@ -4,7 +4,7 @@ loopback socket, plain TCP and ws-rtsp) and through the extracted Coq model;
 the specification monitor c12_ok (the function of theorem C12_model_passes) is
 applied to what the implementation did."""
 import itertools
-from vlib import vs, vparse
+from vlib import vs, vparse, Broken
 
 HOST = "rtsp://127.0.0.1:554"
 OPTIONS, DESCRIBE, ANNOUNCE, SETUP, PLAY, RECORD, TEARDOWN = range(7)
@@ -252,8 +252,25 @@ def run(ck):
     # 2. request sequences through real sessions
     n = 15000 if ck.thorough else 500
     cases = [g.case(16 if ck.thorough else 12) for _ in range(n)]
-    ck.stream("sessions", cases, "C12_run", "C12", "C12_ok", nontrivial=nontrivial, sig=sig, project=project,
-              timeout=1500)
+    obs = ck.stream("sessions", cases, "C12_run", "C12", "C12_ok", nontrivial=nontrivial, sig=sig, project=project,
+                    timeout=1500)
+    # non-vacuity of the observations: sessions do reach playing / recording, and media does reach playing clients
+    playing = recording = media = 0
+    for o in obs:
+        try:
+            v = vparse(o)
+            steps = v[0]
+            if not isinstance(steps, list):
+                continue
+            playing += any(any(r[1] > 0 for r in st[2]) for st in steps)
+            recording += any(any(r[0] == 2 for r in st[2]) for st in steps)
+            media += any(v[2])
+        except Exception:
+            pass
+    ck.extra.update({"sessions_playing": playing, "sessions_recording": recording, "sessions_with_media": media})
+    if obs and (playing < 10 or recording < 10 or media < 5):
+        ck.broken.append(Broken("C12 observations are vacuous (playing=%d recording=%d media=%d): the harness no "
+                                "longer exercises PLAY/RECORD or no longer sees media" % (playing, recording, media)))
 
     # 3. exhaustive over a reduced alphabet
     ex = exhaustive(4 if ck.thorough else 3)
